@@ -308,4 +308,76 @@ def model(args):
     print('model self-test: {} mesh + {} quadtree histories, {} '
           'disagreements between worklist closure and naive fixpoint'.format(
               n, n, bad))
-    return 0 if bad == 0 else 2
+    bad_mark, n_mark, n_hits = marking_model(rng, 10 * n)
+    print('model self-test: {} marking cases ({} with a prefix sum exactly on '
+          'the threshold): {} disagreements between the exact-rational '
+          'marking and float evaluation in five accumulation orders / three '
+          'threshold associations'.format(n_mark, n_hits, bad_mark))
+    return 0 if bad == 0 and bad_mark == 0 else 2
+
+
+def marking_model(rng, n):
+    """mark_exact against plain float evaluation.  Where the oracle claims
+    decidability (it returns a marking in strict mode), every float
+    evaluation order must yield that marking's prefix length; in particular
+    on inputs it declares rounding-free, a prefix that lands exactly on the
+    threshold counts as reaching it."""
+    import numpy as np
+    from .meshsim import mark_exact
+    bad = n_hits = n_cases = 0
+    for _ in range(n):
+        m = rng.randint(2, 12)
+        scale = 2.0**rng.choice([-40, -10, -1, 0, 0, 3, 20])
+        style = rng.random()
+        if style < 0.3:
+            # built to land on the threshold: theta = 1/2, the largest
+            # entry a quarter of the total
+            a = rng.randint(2, 9)
+            rest, left = [], 3 * a
+            while left > 0:
+                r = min(left, rng.randint(1, a))
+                rest.append(r)
+                left -= r
+            vals = [scale * v for v in [a] + rest]
+            rng.shuffle(vals)
+            theta = 0.5
+        elif style < 0.6:
+            vals = [scale * rng.randint(0, 7) for _ in range(m)]
+            theta = rng.choice([0.5, 0.5, 0.25, 0.75, 0.125, 0.875, 0.625])
+        elif style < 0.8:
+            vals = [scale * rng.randint(0, 7) for _ in range(m)]
+            theta = rng.choice([0.6, 0.9, 0.3, 0.7, rng.uniform(0.1, 0.99)])
+        else:
+            vals = [rng.uniform(0, 1) for _ in range(m)]
+            theta = rng.uniform(0.05, 0.99)
+        if sum(vals) == 0:
+            continue
+        r = mark_exact([(v, k) for k, v in enumerate(vals)], theta)
+        if r is None:
+            continue  # declared undecidable: nothing is claimed
+        n_cases += 1
+        always, tied, k = r
+        want = len(always) + k
+        desc = sorted(vals, reverse=True)
+        from fractions import Fraction
+        acc = Fraction(0)
+        thr = Fraction(theta)**2 * sum(Fraction(v) for v in vals)
+        for v in desc:
+            acc += Fraction(v)
+            if acc >= thr:
+                n_hits += acc == thr
+                break
+        totals = [float(np.sum(np.array(vals))), sum(vals),
+                  sum(reversed(vals)), sum(desc), float(np.cumsum(vals)[-1])]
+        for tot in totals:
+            for thr_f in (tot * theta**2, (tot * theta) * theta,
+                          theta * theta * tot):
+                c, got = 0.0, None
+                for i, v in enumerate(desc):
+                    c += v
+                    if c >= thr_f:
+                        got = i + 1
+                        break
+                if got != want:
+                    bad += 1
+    return bad, n_cases, n_hits
